@@ -261,10 +261,14 @@ impl Handle {
         let backoff = Backoff::new();
         loop {
             if let Some(reader) = self.readers.pop() {
+                #[cfg(feature = "verif")]
+                crate::verif::point("get.popped", &[]);
                 // Make a query with the key and return the context to the queue after we finish so
                 // other threads can make progress
                 let result = reader.get(key);
                 self.readers.push(reader).expect("unreachable error");
+                #[cfg(feature = "verif")]
+                crate::verif::point("get.pushed", &[]);
                 break result;
             }
             // Spin until we have access to a reader
@@ -288,6 +292,49 @@ impl Handle {
 
     fn close(&self) {
         self.ctx.closed.store(true)
+    }
+}
+
+#[cfg(feature = "verif")]
+impl Handle {
+    /// Run a merge now (verification hook).
+    pub fn verif_merge(&self) -> Result<(), Error> {
+        self.merge()
+    }
+
+    /// Force a sync of the active file now (verification hook).
+    pub fn verif_sync(&self) -> Result<(), Error> {
+        self.sync()
+    }
+
+    /// Evaluate the merge triggers (verification hook).
+    pub fn verif_can_merge(&self) -> bool {
+        self.ctx.can_merge()
+    }
+
+    /// Copy the private in-memory state while holding the writer lock (verification hook).
+    pub fn verif_dump(&self) -> crate::verif::Dump {
+        let writer = self.writer.lock();
+        let mut keydir: Vec<_> = self
+            .ctx
+            .keydir
+            .iter()
+            .map(|e| (e.key().clone(), e.fileid, e.pos, e.len))
+            .collect();
+        keydir.sort();
+        let mut stats: Vec<_> = self
+            .ctx
+            .stats
+            .iter()
+            .map(|e| (*e.key(), e.live_keys, e.dead_keys, e.dead_bytes))
+            .collect();
+        stats.sort_unstable();
+        crate::verif::Dump {
+            keydir,
+            stats,
+            active_fileid: writer.active_fileid,
+            written_bytes: writer.written_bytes,
+        }
     }
 }
 
@@ -356,6 +403,15 @@ impl Writer {
     fn put(&mut self, key: Bytes, value: Bytes) -> Result<(), Error> {
         // Write to disk
         let keydir_entry = self.write(utils::timestamp(), key.clone(), Some(value))?;
+        #[cfg(feature = "verif")]
+        crate::verif::point(
+            "put.publishing",
+            &[
+                ("fileid", keydir_entry.fileid),
+                ("pos", keydir_entry.pos),
+                ("len", keydir_entry.len),
+            ],
+        );
         // If we overwrite an existing value, update the storage statistics
         if let Some(prev_keydir_entry) = self.ctx.keydir.insert(key, keydir_entry) {
             self.ctx
@@ -375,6 +431,8 @@ impl Writer {
     fn delete(&mut self, key: Bytes) -> Result<bool, Error> {
         // Write to disk
         self.write(utils::timestamp(), key.clone(), None)?;
+        #[cfg(feature = "verif")]
+        crate::verif::point("del.publishing", &[]);
         // If we overwrite an existing value, update the storage statistics
         match self.ctx.keydir.remove(&key) {
             Some((_, prev_keydir_entry)) => {
@@ -399,6 +457,15 @@ impl Writer {
         // Append log entry
         let datafile_entry = DataFileEntry { tstamp, key, value };
         let index = self.writer.append(&datafile_entry)?;
+        #[cfg(feature = "verif")]
+        crate::verif::point(
+            "write.appended",
+            &[
+                ("fileid", self.active_fileid),
+                ("pos", index.pos),
+                ("len", index.len),
+            ],
+        );
         // Sync immediately if the strategy is "always"
         if let SyncStrategy::Always = self.ctx.conf.sync {
             self.writer.sync()?;
@@ -455,6 +522,14 @@ impl Writer {
 
         // Get the set of file ids to be merged
         let fileids_to_merge = self.ctx.fileids_to_merge(path)?;
+        #[cfg(feature = "verif")]
+        crate::verif::point(
+            "merge.selected",
+            &[
+                ("count", fileids_to_merge.len() as u64),
+                ("first_output", min_merge_fileid),
+            ],
+        );
 
         // NOTE: we use an explicit scope here to control the lifetimes of `readers`,
         // `merge_datafile_writer` and `merge_hintfile_writer`. We drop the readers
@@ -488,6 +563,16 @@ impl Writer {
                     )?
                 };
 
+                #[cfg(feature = "verif")]
+                crate::verif::point(
+                    "merge.copied",
+                    &[
+                        ("from", keydir_entry.fileid),
+                        ("to", merge_fileid),
+                        ("pos", merge_pos),
+                        ("len", nbytes),
+                    ],
+                );
                 // update keydir so it points to the merge data file
                 keydir_entry.fileid = merge_fileid;
                 keydir_entry.len = nbytes;
@@ -527,6 +612,8 @@ impl Writer {
             merge_hintfile_writer.sync()?;
         }
 
+        #[cfg(feature = "verif")]
+        crate::verif::point("merge.unlinking", &[("last_output", merge_fileid)]);
         // Remove stale files from system and storage statistics
         for id in &fileids_to_merge {
             self.ctx.stats.remove(id);
@@ -577,6 +664,16 @@ impl Reader {
     fn get(&self, key: Bytes) -> Result<Option<Bytes>, Error> {
         match self.ctx.keydir.get(&key) {
             Some(keydir_entry) => {
+                #[cfg(feature = "verif")]
+                crate::verif::point(
+                    "get.looked_up",
+                    &[
+                        ("found", 1),
+                        ("fileid", keydir_entry.fileid),
+                        ("pos", keydir_entry.pos),
+                        ("len", keydir_entry.len),
+                    ],
+                );
                 // SAFETY: We have taken `keydir_entry` from KeyDir which is ensured to point to
                 // valid data file positions. Thus we can be confident that the Mmap won't be
                 // mapped to an invalid segment.
@@ -633,6 +730,8 @@ fn background_tasks(handle: Handle, notify_shutdown: broadcast::Sender<()>) -> R
     if let Err(e) = r2 {
         error!(cause=?e, "sync error");
     }
+    #[cfg(feature = "verif")]
+    crate::verif::point("bg.exit", &[]);
     Ok(())
 }
 
@@ -656,7 +755,11 @@ async fn merge_on_interval(handle: Handle, mut shutdown: Shutdown) -> Result<(),
                 return Ok(());
             },
         };
+        #[cfg(feature = "verif")]
+        crate::verif::point("bg.merge.woke", &[]);
         if handle.ctx.can_merge() {
+            #[cfg(feature = "verif")]
+            crate::verif::point("bg.merge.triggered", &[]);
             let handle = handle.clone();
             if let Err(e) = tokio::task::spawn_blocking(move || handle.merge()).await? {
                 error!(cause=?e, "merge error");
@@ -681,6 +784,8 @@ async fn sync_on_interval(handle: Handle, mut shutdown: Shutdown) -> Result<(), 
                     return Ok(());
                 },
             };
+            #[cfg(feature = "verif")]
+            crate::verif::point("bg.sync.woke", &[]);
             let handle = handle.clone();
             if let Err(e) = tokio::task::spawn_blocking(move || handle.sync()).await? {
                 error!(cause=?e, "sync error");
